@@ -58,7 +58,7 @@ const srcAbs = "/w/src"
 func mt(sec int64, frac int64) (int64, int64) { return sec, frac }
 
 func genPackTree(rng *Rng, risky bool) (*TNode, bool, string) {
-	names := []string{"a", "b.txt", "c", "d", "sp ace", "-dash", ".hidden", "e.tf", "sub", "z", "..data", "..."}
+	names := []string{"a", "b.txt", "c", "d", "sp ace", "-dash", ".hidden", "e.tf", "sub", "z", "..data", "...", "b\\c", "mod-a", "sub.tf"}
 	fracs := []int64{0, 400000000, 500000000, 600000000, 999999999, 1}
 	perms := []uint32{0o644, 0o600, 0o755, 0o444, 0o400, 0o777, 0o640, 0o000, 0o001}
 	hasOutLink := false
@@ -88,7 +88,7 @@ func genPackTree(rng *Rng, risky bool) (*TNode, bool, string) {
 			case k < 19:
 				up := strings.Repeat("../", depth)
 				var t string
-				switch j := rng.Intn(14); {
+				switch j := rng.Intn(17); {
 				case j < 5:
 					t = rng.Pick([]string{"a", "b.txt", "sub", "c/a", "nothing", "./a"})
 				case j < 7:
@@ -124,6 +124,17 @@ func genPackTree(rng *Rng, risky bool) (*TNode, bool, string) {
 					hasOutLink = true
 				case j == 12:
 					t = "/secret"
+					hasOutLink = true
+				case j == 14:
+					// leaves the tree and comes back: a chain whose end lies inside
+					t = up + "../outside/" + rng.Pick([]string{"back", "backd"})
+					hasOutLink = true
+				case j == 15:
+					// into a place that is allow-listed for another source directory only
+					t = up + "../other/outside/f"
+					hasOutLink = true
+				case j == 16:
+					t = up + "../outside/back"
 					hasOutLink = true
 				default:
 					t = up + "../outside/chain"
@@ -165,6 +176,8 @@ func genPackTree(rng *Rng, risky bool) (*TNode, bool, string) {
 			"in":   tlink("g"), "up": tlink("../f")}),
 	})
 	outside.Kids["f"].Mtime, outside.Kids["f"].MtimeN = 1300000000, 500000000
+	outside.Kids["back"] = tlink("../src/" + rng.Pick([]string{"a", "b.txt", "c"}))
+	outside.Kids["backd"] = tlink("../src/sub")
 	if rng.Chance(15) {
 		// an external directory holding a dangling link whose text escapes at the archive position
 		outside.Kids["e"] = tdir(0o755, map[string]*TNode{"ok": tfile("e-ok", 0o644), "broken": tlink("../../gone"), "broken2": tlink("nowhere")})
@@ -193,7 +206,9 @@ func genPackTree(rng *Rng, risky bool) (*TNode, bool, string) {
 		"lnk":     tlink("src"),
 		"cyc1":    tlink("cyc2"),
 		"cyc2":    tlink("cyc1"),
-		"other":   tdir(0o755, map[string]*TNode{".terraformignore": tfile("!a\n*\n", 0o644), "keep": tfile("k", 0o644)}),
+		"other": tdir(0o755, map[string]*TNode{".terraformignore": tfile("!a\n*\n", 0o644), "keep": tfile("k", 0o644),
+			"outside": tdir(0o755, map[string]*TNode{"f": tfile("other-outside-f", 0o644)}),
+			"deep":    tdir(0o755, map[string]*TNode{"k": tfile("k", 0o644), "x": tlink("../outside/f"), "y": tlink("k")})}),
 		"out":     tdir(0o755, nil),
 	})
 	root := tdir(0o755, map[string]*TNode{"w": w, "secret": tfile("top-secret", 0o600), "cwd2": tdir(0o755, map[string]*TNode{"rl": tlink("../w/src")})})
@@ -206,6 +221,8 @@ var spellings = []spelling{
 	{"/w/src", "/"}, {"/w/src/", "/"}, {"w/src", "/"}, {"./w/src", "/"}, {"src", "/w"}, {".", "/w/src"}, {"../src", "/w/out"},
 	{"/w/./src", "/cwd2"}, {"/w/out/../src", "/w"}, {"/w//src", "/"},
 	{"/w/lnk", "/w"}, {"/w/lnk", "/"}, {"lnk", "/w"}, {"/cwd2/rl", "/cwd2"}, {"/cwd2/rl", "/"},
+	// from inside the directory that out-of-tree links point into: relative link texts must not be read from here
+	{"../src", "/w/outside"}, {"/w/src", "/w/outside"}, {"/w/src", "/w/outside/d"},
 }
 
 func lookupT(root *TNode, p string) *TNode {
@@ -520,10 +537,24 @@ func runPackCase(c *PackCase, work string, rng *Rng, ignoreText string, hasOut b
 	// ---- C16: the same Packer value used for another tree first ----
 	if !c.Risky && !c.Legacy {
 		c3 := *c
-		r3, es3 := runPackChildPre(&c3, R, spelling{c.Src, c.Cwd}, "/w/other")
+		pre := rng.Pick([]string{"/w/other", "/w/other/deep", "/w/other/deep"})
+		r3, es3 := runPackChildPre(&c3, R, spelling{c.Src, c.Cwd}, pre)
 		if r3.Crashed == "" && !r3.Timeout {
 			if (r3.Err == "") != ok || (ok && entriesKey(es3) != entriesKey(es)) {
-				vs = append(vs, viol("C16", fmt.Sprintf("packing %q with a Packer that packed /w/other before gives a different slug than with a fresh Packer (err %q vs %q)", c.Src, r3.Err, resp.Err)))
+				vs = append(vs, viol("C16", fmt.Sprintf("packing %q with a Packer that packed %s before gives a different slug than with a fresh Packer (err %q vs %q)", c.Src, pre, r3.Err, resp.Err)))
+			}
+			if r3.Err == "" {
+				// C05 does not depend on what the Packer did before either
+				for _, e := range es3 {
+					if e.Type != "2" || strings.HasPrefix(e.Link, "/") {
+						continue
+					}
+					name := strings.TrimSuffix(e.Name, "/")
+					abs := path.Clean(path.Join(srcAbs, path.Dir(name), e.Link))
+					if !inRoot(abs) && !allowed(abs) && !(c.Deref && strings.Contains(name, "/")) {
+						vs = append(vs, viol("C05", fmt.Sprintf("a Packer that packed %s before stores link %q -> %q, which points outside the source directory and is not allow-listed for it", pre, name, e.Link)))
+					}
+				}
 			}
 		}
 	}
@@ -680,8 +711,13 @@ func runPackStream(o *Opts) {
 		if rng.Chance(15) {
 			c.Legacy = true
 		}
-		if rng.Chance(10) {
-			c.Allow = []string{rng.Pick([]string{"/w/outside", "../outside/f", "/secret", "/w/src-sib"})}
+		if rng.Chance(18) {
+			c.Allow = []string{rng.Pick([]string{"/w/outside", "../outside/f", "../outside/f", "/secret", "/w/src-sib"})}
+			if c.Allow[0] == "../outside/f" && rng.Chance(60) {
+				// a link into what the same relative entry allows for another source directory
+				tree.Kids["w"].Kids["src"].Kids["to-other"] = tlink("../other/outside/f")
+				hasOut = true
+			}
 		}
 		if rng.Chance(20) {
 			c.FailAt = rng.Intn(100000)
